@@ -4,6 +4,7 @@
 package schema
 
 import (
+	"encoding/binary"
 	"fmt"
 	"sort"
 	"time"
@@ -23,9 +24,10 @@ const (
 	KF64
 	KBool
 	KTime
-	KList  // string list (sub bucket)
-	KMap   // nested map (PutMap)
-	KLinks // linked ids persisted through SetLinkedIds
+	KList   // string list (sub bucket)
+	KI64Set // set of int64 values: the library has no setter for it, the strategy fills the list bucket entry by entry (SetListEntry)
+	KMap    // nested map (PutMap)
+	KLinks  // linked ids persisted through SetLinkedIds
 )
 
 type Field struct {
@@ -255,6 +257,17 @@ func readField(b *boltz.TypedBucket, f Field) any {
 		}
 	case KList, KLinks:
 		return b.GetStringList(f.Name)
+	case KI64Set:
+		var out []int64
+		if list := b.GetBucket(f.Name); list != nil && !list.HasError() {
+			cur := list.Cursor()
+			for k, _ := cur.First(); k != nil; k, _ = cur.Next() {
+				if v := boltz.FieldToInt64(boltz.GetTypeAndValue(k)); v != nil {
+					out = append(out, *v)
+				}
+			}
+		}
+		return out
 	case KMap:
 		return b.GetMap(f.StoreKey())
 	}
@@ -337,6 +350,19 @@ func persistField(e *Ent, f Field, ctx *boltz.PersistContext) {
 		writeField(nb, f, v, e, ctx)
 		if nb.HasError() {
 			ctx.Bucket.SetError(nb.GetError())
+		}
+		return
+	}
+	if f.Kind == KI64Set {
+		list, err := ctx.Bucket.EmptyBucket(f.Name)
+		if ctx.Bucket.SetError(err) {
+			return
+		}
+		vals, _ := v.([]int64)
+		for _, x := range vals {
+			buf := make([]byte, 8)
+			binary.LittleEndian.PutUint64(buf, uint64(x))
+			ctx.Bucket.SetError(list.SetListEntry(boltz.TypeInt64, buf).GetError())
 		}
 		return
 	}
@@ -556,6 +582,8 @@ func Build(defs []*StoreDef) *Schema {
 				} else {
 					st.Sym[f.Name] = st.Store.AddPublicSetSymbol(f.Name, ast.NodeTypeString)
 				}
+			case KI64Set:
+				st.Sym[f.Name] = st.Store.AddPublicSetSymbol(f.Name, ast.NodeTypeInt64)
 			case KMap:
 				st.Store.AddMapSymbol(f.Name, ast.NodeTypeAnyType, f.StoreKey(), f.Prefix...)
 				if !f.Private {
